@@ -106,10 +106,20 @@ Contribution(h) == [sent |-> h[1].s, pcs |-> Frames(h)]
 
 (* Where the property is silent (not in the genuine format) it still demands *)
 (* an error, the fixed name, or at most Cap frames each coming from a PC     *)
-(* line of the report below a goroutine header -- never anything else.       *)
-Liberal(h) == LET S == {i \in 1..Len(h) : h[i].s \in {"run", "amb"}} IN
-              IF S = {} THEN {}
-              ELSE {i \in (Min(S) + 1)..Len(h) : h[i].pc \in {"ok", "okpath", "huge"}}
+(* line of the FIRST RUNNING GOROUTINE -- never anything else.  That         *)
+(* goroutine's part of the report begins after its header and ends at the    *)
+(* first blank line or "created by" line after it, whatever the pairing of   *)
+(* the lines in between (odd pairing garbles the frames, it does not move    *)
+(* the end): no line of a later goroutine may contribute.  Header lines the  *)
+(* classifier cannot tell ("amb") before the first certain header are        *)
+(* candidates too.                                                           *)
+LibEnd(h, c) == LET E == {j \in (c + 1)..Len(h) : h[j].s \in {"blank", "created"}}
+                IN IF E = {} THEN Len(h) + 1 ELSE Min(E)
+Liberal(h) == LET R == {i \in 1..Len(h) : h[i].s = "run"}
+                  first == IF R = {} THEN Len(h) + 1 ELSE Min(R)
+                  C == (R \cap {first}) \cup {i \in 1..Len(h) : h[i].s = "amb" /\ i < first}
+              IN {i \in 1..Len(h) : /\ h[i].pc \in {"ok", "okpath", "huge"}
+                                    /\ \E c \in C : c < i /\ i < LibEnd(h, c)}
 
 ShapeOK(o) == /\ o.kind \in {"err", "nogo", "name"}
               /\ o.lenok
